@@ -50,8 +50,24 @@ def rand_num(rng):
 COMMENT_WORDS = ['hash', 'of', 'the', 'payload', '#', 'x#y', 'size:', '(bytes)', 'a\tb', '"quoted"', "it's", '\\n', 'café', '中', '@is_aligned', 'inline', '=', 'a  b']
 
 
+# characters that str.splitlines() / many editors take for a line boundary but the DSL does not (a line ends at LF or CRLF only): inside a
+# comment line they are ordinary documentation text (VT, FF, FS, GS, RS, NEL, LINE / PARAGRAPH SEPARATOR, a CR that is not followed by LF)
+LINE_BOUNDARY_LOOKALIKES = ['\x0b', '\x0c', '\x1c', '\x1d', '\x1e', '\x85', '\u2028', '\u2029', '\r']
+
+
+def rand_boundary_word(rng):
+	"""a word that contains one line boundary look-alike: alone, glued to the end / start of text, or between two pieces of text"""
+	char = rng.choice(LINE_BOUNDARY_LOOKALIKES)
+	shape = rng.randrange(4)
+	if char == '\r':
+		return 'car' + char + 'riage'   # at the edge of a line a CR is part of a CRLF line end (or stripped as white space)
+	return [char, 'page' + char, char + 'next', 'height' + char + 'of'][shape]
+
+
 def rand_comment_segment(rng):
 	words = [rng.choice(COMMENT_WORDS) for _ in range(rng.randrange(1, 6))]
+	if rng.randrange(5) == 0:
+		words.insert(rng.randrange(len(words) + 1), rand_boundary_word(rng))
 	text = ' '.join(words)
 	text = text.strip('# \t\r')
 	return text or 'doc'
@@ -663,19 +679,54 @@ def descriptors(items):
 	return out
 
 
+def _all_attributes(items):
+	"""every Attribute object of the parsed statements (declaration level and member level)"""
+	out = []
+	for item in items:
+		kind = type(item).__name__
+		if kind not in ('Struct', 'Enum'):
+			continue
+		out += list(getattr(item, 'attributes', None) or [])
+		for member in (item.fields if kind == 'Struct' else []):
+			out += list(getattr(member, 'attributes', None) or [])
+	return out
+
+
+def _names_property_not(attribute):
+	"""the attribute has an argument that is a PROPERTY literally named `not` (in @alignment `not` can only be the negation operator)"""
+	return attribute.name != 'alignment' and 'not' in attribute.values
+
+
+def raw_attribute_values(items):
+	"""[(owner, attribute name, values)] in document order: the values exactly as the parser recorded them (None = absent optional token)"""
+	out = []
+	for item in items:
+		kind = type(item).__name__
+		if kind not in ('Struct', 'Enum'):
+			continue
+		out += [(item.name, attribute.name, list(attribute.values)) for attribute in (getattr(item, 'attributes', None) or [])]
+		for member in (item.fields if kind == 'Struct' else []):
+			out += [(f'{item.name}.{getattr(member, "name", "inline")}', attribute.name, list(attribute.values))
+				for attribute in (getattr(member, 'attributes', None) or [])]
+	return out
+
+
 def printback_problem(items):
-	"""Oracle P (print-back): None when repo_print(items) parses to the same descriptors, else (signature, description)."""
+	"""Oracle P (print-back): None when repo_print(items) parses to the same descriptors - the legacy descriptors, the raw attribute
+	values (name and value list of every attribute, which the legacy descriptors of unprocessed declarations do not show) and the
+	attached documentation -, else (signature, description)."""
 	if not [item for item in items if type(item).__name__ != 'Comment']:
 		return None  # nothing to print
 	back = repo_print(items)
 	again = impl_parse(back)
+	not_named = [str(attribute) for attribute in _all_attributes(items) if _names_property_not(attribute)]
 	if again[0] != 'ok':
 		lines = back.split('\n')
 		line = lines[again[1] - 1] if again[0] == 'err' and again[1] and again[1] <= len(lines) else ''
 		if re.search(r'@\w+\(.*\bNone\b', line):
 			return ('attribute-str-prints-none-placeholders',
 				f'printing the parsed declarations back gives the line {line.strip()!r} (lark\'s None placeholders printed by Attribute.__str__); it does not parse')
-		if re.search(r'@\w+\((|.*(, |\()not [^p])', line) or re.search(r'@\w+\(\)', line):
+		if line.strip() in not_named:
 			return ('attribute-str-takes-property-named-not-for-negation',
 				f'printing the parsed declarations back gives the line {line.strip()!r} (an attribute argument that is the property name `not` is printed as a qualifier); it does not parse')
 		return ('printback-does-not-parse:' + hashlib.sha256(line.encode('utf8')).hexdigest()[:10], f'print-back line {line.strip()!r} does not parse: {again[1:]}')
@@ -683,10 +734,23 @@ def printback_problem(items):
 		before, after = descriptors(items), descriptors(again[2])
 		diff = next(((b, a) for b, a in zip(before, after) if b != a), (None, None))
 		text = repr(diff)
-		if "'not'" in text:
+		if "'not'" in text and not_named:
 			return ('attribute-str-takes-property-named-not-for-negation',
 				f'print-back changes the descriptors (an attribute argument named `not` is lost): {text[:300]}')
 		return ('printback-changes-descriptors:' + hashlib.sha256(text.encode('utf8')).hexdigest()[:10], f'print-back changes the descriptors: {text[:300]}')
+	before, after = raw_attribute_values(items), raw_attribute_values(again[2])
+	if before != after:
+		diff = next(((b, a) for b, a in zip(before, after) if b != a), (before[len(after):][:1], after[len(before):][:1]))
+		if not_named and diff[0] and diff[1] and 'not' in diff[0][2]:
+			return ('attribute-str-takes-property-named-not-for-negation',
+				f'print-back changes the attribute values (an attribute argument named `not` is lost): {diff}')
+		return ('printback-changes-attribute-values:' + hashlib.sha256(repr(diff).encode('utf8')).hexdigest()[:10],
+			f'print-back changes the values of an attribute: written / parsed {diff[0]}, after printing the declarations back and parsing again {diff[1]}')
+	before, after = canonical_items([i for i in items if type(i).__name__ != 'Comment']), canonical_items(again[2])
+	if before != after:
+		diff = next(((b, a) for b, a in zip(before, after) if b != a), (before[len(after):][:1], after[len(before):][:1]))
+		return ('printback-changes-declarations:' + hashlib.sha256(repr(diff).encode('utf8')).hexdigest()[:10],
+			f'print-back changes what the parser records (documentation / member properties): {str(diff[0])[:300]} -> {str(diff[1])[:300]}')
 	return None
 
 
@@ -878,6 +942,26 @@ _DEC_NUMERAL = re.compile(r'(?<![A-Za-z0-9_])([0-9]+)(?![A-Za-z0-9_])')
 _HEX_NUMERAL = re.compile(r'(?<![A-Za-z0-9_])0x([0-9A-F]+)(?![A-Za-z0-9_])')
 
 
+def numeral_digit_positions(content):
+	"""positions of the decimal digits that belong to a numeral (DEC_NUMBER, or the part of a HEX_NUMBER behind `0x`) of a statement line:
+	buffer size, enum value, array size, sizeref delta, alignment, condition value, make_const / make_reserved value"""
+	positions = []
+	for match in list(_HEX_NUMERAL.finditer(content)) + list(_DEC_NUMERAL.finditer(content)):
+		positions += [k for k in range(match.start(1), match.end(1)) if content[k] in DIGITS]
+	return sorted(positions)
+
+
+# a digit of a numeral replaced by the character of the same numeric value from another script.  All of them are decimal digits to
+# Unicode (category Nd; `\d` of a str pattern and int() accept them) but none is a DIGIT of the DSL ("0".."9"), and outside comments and
+# import strings no terminal of the grammar contains a character beyond ASCII: the corrupted line cannot be lexed
+for _label, _zero, _pick in (('fullwidth', 0xFF10, 'first'), ('arabic-indic', 0x0660, 'last'), ('devanagari', 0x0966, 'middle'), ('bengali', 0x09E6, 'first')):
+	def _respell_digit(i, c, zero=_zero, pick=_pick):
+		positions = numeral_digit_positions(c)
+		k = positions[{'first': 0, 'last': -1, 'middle': len(positions) // 2}[pick]]
+		return c[:k] + chr(zero + int(c[k])) + c[k + 1:]
+	operator(f'numeral-with-{_label}-digit', _sites(lambda i, c: not _is_import(c) and bool(numeral_digit_positions(c))), _edit(_respell_digit))
+
+
 def respell_numerals(text, rng):
 	"""The same document with some numerals written with leading zeros (decimal `0012`, hex `0x001F`); comment lines are left alone."""
 	lines, eol_text, terminated = split_lines(text)
@@ -901,6 +985,24 @@ def respell_indent(text, rng):
 			line = '\t' + line[4:]
 		result.append(line)
 	return join_lines(result, eol_text, terminated)
+
+
+def respell_blank_lines(style, items, rng):
+	"""The same document with blank lines that are not empty: some of its blank lines carry white space (what an editor leaves behind
+	when a member is deleted or auto-indent is on: the indentation of the surrounding body, or one tab / four blanks), and some such
+	lines are added behind members and enum values.  Blank lines are insignificant, so the descriptors must not change."""
+	def blank():
+		return rng.choice([style['indent'], style['indent'], style['indent'], '\t', '    '])
+
+	lines = []
+	for line, tag in phys_lines(style, items):
+		if tag[0] == 'blank':
+			lines.append(blank() if rng.randrange(3) else line)
+			continue
+		lines.append(line)
+		if tag[0] in ('member', 'enum-value') and rng.randrange(4) == 0:
+			lines += [blank() for _ in range(rng.choice([1, 1, 2]))]
+	return ''.join(line + eol(style) for line in lines)
 
 
 def split_lines(text):
@@ -1021,7 +1123,9 @@ def run(check, unrecognised):
 	check.assume += ['documents are compared as UTF-8 byte strings (columns are only compared for ASCII documents)',
 		'numerals are unbounded in the model (CPython refuses decimal numerals of more than 4300 digits)']
 	check.extra['rule'] = 'all shipped .cats files; seeded random descriptor lists rendered by the Python mirror of `render` in random styles ' \
-		'(names drawn from the keyword-like pool); a sample of the C11 corrupted stream; distinct = distinct texts'
+		'(names drawn from the keyword-like pool; comment text with the characters str.splitlines() takes for line ends: VT FF FS GS RS NEL U+2028 ' \
+		'U+2029, lone CR); the same documents with numerals / indentation respelt and with blank lines that carry white space; print-back compares ' \
+		'legacy descriptors, raw attribute values and documentation; a sample of the C11 corrupted stream; distinct = distinct texts'
 	for module in ('GrammarTerminals', 'SyntaxOps'):
 		if unrecognised.get(module):
 			check.notes.append(f'anchors not recognised, pinned values used for them: {unrecognised[module]}')
@@ -1047,6 +1151,11 @@ def run(check, unrecognised):
 	# tab and four blanks are the same indentation (the indenter counts a tab as four columns): documents that mix the two line by line
 	for case in [c for c in cases if c['kind'] == 'random' and c['style']['indent'] in ('\t', '    ')][:100 if check.tier == 'quick' else 2000]:
 		respelt = respell_indent(case['text'], rng)
+		if respelt != case['text']:
+			cases.append({'kind': 'respelt', 'index': case['index'], 'ds': case['ds'], 'style': case['style'], 'text': respelt})
+	# blank lines that are not empty (they still carry the indentation of the body around them), LF and CRLF alike
+	for case in [c for c in cases if c['kind'] == 'random'][:120 if check.tier == 'quick' else 2500]:
+		respelt = respell_blank_lines(case['style'], case['ds'], rng)
 		if respelt != case['text']:
 			cases.append({'kind': 'respelt', 'index': case['index'], 'ds': case['ds'], 'style': case['style'], 'text': respelt})
 	corrupt_from = cases[:84:7] + [c for c in cases if c['kind'] == 'random'][:40 if check.tier == 'quick' else 400]
